@@ -190,11 +190,12 @@ func (e *Edge) key() string {
 }
 
 type analyzer struct {
-	prog   *ssa.Program
-	funcs  []*ssa.Function
-	sums   map[*ssa.Function]*Summary
-	mod    string
-	byName map[string][]*ssa.Function // method name -> module methods (CHA)
+	prog    *ssa.Program
+	funcs   []*ssa.Function
+	sums    map[*ssa.Function]*Summary
+	mod     string
+	byName  map[string][]*ssa.Function // method name -> module methods (CHA)
+	usedStd map[string]bool            // standard-library summaries that were applied
 }
 
 func origin(f *ssa.Function) *ssa.Function {
@@ -235,6 +236,11 @@ func isRef(t types.Type) bool {
 		return u.Kind() == types.UnsafePointer
 	}
 	return false
+}
+
+func isString(t types.Type) bool {
+	b, ok := t.Underlying().(*types.Basic)
+	return ok && b.Info()&types.IsString != 0
 }
 
 // pointeeHasRefs: typing rule (C).
@@ -627,6 +633,7 @@ func (s *fstate) extCall(instr ssa.Instruction, g *ssa.Function, args []ssa.Valu
 		return
 	}
 	if e, ok := lookupStd(name); ok {
+		s.a.usedStd[name] = true
 		s.applyStd(instr, name, e, args, res)
 		return
 	}
@@ -813,7 +820,13 @@ func (s *fstate) instr(in ssa.Instruction) {
 		s.setP(v, x)
 		s.closureCreated(v)
 	case *ssa.MakeInterface:
-		s.setP(v, s.P(v.X))
+		if _, opaque := types.Unalias(v.X.Type()).(*types.TypeParam); opaque {
+			// rule (T) holds only while the value keeps its type-parameter type: behind an interface
+			// it can be inspected (type assertion, reflection), so it becomes an unknown reference
+			s.setP(v, Set{G: true})
+		} else {
+			s.setP(v, s.P(v.X))
+		}
 	case *ssa.FieldAddr:
 		s.setP(v, s.P(v.X))
 	case *ssa.IndexAddr:
@@ -827,7 +840,14 @@ func (s *fstate) instr(in ssa.Instruction) {
 	case *ssa.ChangeType:
 		s.setP(v, s.P(v.X))
 	case *ssa.Convert:
-		s.setP(v, s.P(v.X))
+		switch {
+		case isRef(v.X.Type()):
+			s.setP(v, s.P(v.X))
+		case isString(v.X.Type()):
+			s.setP(v, Set{s.fresh(v): true}) // string -> []byte / []rune: a fresh copy
+		default:
+			s.setP(v, Set{G: true}) // e.g. uintptr -> unsafe.Pointer: a forged, unknown reference
+		}
 	case *ssa.MultiConvert:
 		s.setP(v, s.P(v.X))
 	case *ssa.ChangeInterface:
